@@ -770,3 +770,34 @@ CONTRACTS[ST + 'StabilizerState.get_prob'] = dict(
               'len(readout) == cols(self.gs) // 2', 'bits1(readout)'],
     ensures=[], modifies=[], returns='real',
 )
+
+# ------------------------------------------------------------------ C15 / C17: coefficient-level operations of a polynomial
+_same_terms = ['rows(result.gs) == rows(self.gs)', 'cols(result.gs) == cols(self.gs)', 'len(result.ps) == len(self.ps)', 'len(result.cs) == len(self.cs)',
+               'forall(j, 0, rows(self.gs), forall(c, 0, cols(self.gs), result.gs[j][c] == self.gs[j][c]))',
+               'forall(j, 0, len(self.ps), result.ps[j] == self.ps[j])']
+CONTRACTS[PA + 'PauliPolynomial.__neg__'] = dict(
+    params=[('self', POLY)], requires=['len(self.ps) == rows(self.gs)', 'len(self.cs) == rows(self.gs)'],
+    # the negative of a polynomial: same terms, every coefficient negated
+    ensures=_same_terms + ['forall(j, 0, len(self.cs), result.cs[j] == cneg(self.cs[j]))'],
+    modifies=[], returns=POLY,
+)
+CONTRACTS[PA + 'PauliPolynomial.__rmul__'] = dict(
+    params=[('self', POLY), ('c', 'cplx')], requires=['len(self.ps) == rows(self.gs)', 'len(self.cs) == rows(self.gs)'],
+    # a number times a polynomial: same terms, every coefficient multiplied by the number
+    ensures=_same_terms + ['forall(j, 0, len(self.cs), result.cs[j] == cmul(c, self.cs[j]))'],
+    modifies=[], returns=POLY,
+)
+CONTRACTS[PA + 'PauliPolynomial.copy'] = dict(
+    params=[('self', POLY)], requires=['len(self.ps) == rows(self.gs)', 'len(self.cs) == rows(self.gs)'],
+    ensures=_same_terms + ['forall(j, 0, len(self.cs), result.cs[j] == self.cs[j])', 'fresh_loc(result.gs)', 'fresh_loc(result.ps)', 'fresh_loc(result.cs)'],
+    modifies=[], returns=POLY,
+)
+
+# ------------------------------------------------------------------ C09: two gates are independent exactly when they share no qubit
+GATE_Q = {'cls': 'CliffordGate', 'fields': {'qubits': 'int1'}}
+CONTRACTS[CI + 'CliffordGate.independent_from'] = dict(
+    params=[('self', GATE_Q), ('other_gate', GATE_Q)],
+    requires=[],
+    ensures=['iff(result, forall(i, 0, len(self.qubits), forall(j, 0, len(other_gate.qubits), self.qubits[i] != other_gate.qubits[j])))'],
+    modifies=[], returns='bool',
+)
